@@ -40,6 +40,14 @@ MEMPOOL_HARNESSES = [
      'obligations': ['REAL MemPool::removeAll with a VTB that is connected once or twice (resubmission of a connected payload): afterwards neither the per-type map nor the VBK relations hold it, and generatePopData never returns it again'],
      'rungs': {'quick': [{'bound': 'one VTB connected 1..2 times on VBK block 3 (pool state constructed directly), removeAll, generatePopData', 'timeout': 200}], 'thorough': [{'bound': 'as quick', 'timeout': 400}]}},
 ]
+RELOAD_HARNESSES = [
+    {'name': 'h_reload', 'src': 'real/h_reload.cpp', 'entry': 'h_reload', 'repo_srcs': srcsets_real.REAL + ['src/pop/storage/adaptors/block_provider_impl.cpp'], 'covers': [1, 2, 3], 'jobs': 16,
+     'obligations': ['REAL trees saved with saveTrees() through the library adaptors (BlockBatchImpl/BlockReaderImpl over InmemStorageImpl: every index is serialized and parsed back) and loaded into a fresh AltBlockTree with loadTrees(): the loaded instance has the same blocks, heights, status bits, payload ids, endorsements, reference counts, chain work, tips and best chains in the ALT, VBK and BTC trees',
+                     'the same holds after a continuation (switch / new block / invalidate+revalidate / the body of an already saved header arrives) followed by an INCREMENTAL save (only dirty indices written)',
+                     'after loading, both instances give the same verdict and reach the same state for one more setState; every index is clean after a save'],
+     'rungs': {'quick': [{'bound': 'ALT tree 1-2-{3,4}, 5 on 1; VBK context of 3 blocks, optional VTB (in ALT 2), optional ATVs (ALT 3, ALT 4), optional contextually invalid block 5; header-only block 7 on 3 with child 8 whose body is already there; any first tip; 5 continuations; normal and fast load; any final target', 'timeout': 450}],
+               'thorough': [{'bound': 'as quick', 'timeout': 900}]}},
+]
 SP_HARNESSES = [
     {'name': 'h_realsp', 'src': 'real/h_realsp.cpp', 'entry': 'h_realsp', 'repo_srcs': srcsets_real.REAL, 'covers': [1, 2, 3, 5], 'jobs': 8,
      'obligations': ['REAL trees, two equal-work VBK branches: a failed setState and a comparePopScore the tip does not lose leave every observable of the ALT, VBK and BTC views unchanged, including the VBK best chain (first-seen branch), although applying the candidate moved it',
